@@ -60,3 +60,197 @@ Theorem C20_class_and_kind : forall Df typed fuel s (t : gt),
   kind_of typed t = (if typed then Some (g_type t) else None).
 Proof. intros. repeat split. Qed.
 Print Assumptions C20_class_and_kind.
+
+(* ------------------------------------------------------------------------ *)
+(* EVERY node at any depth: type allowed by the relations of its parent's type,
+   dict = merged spec of that relation at the node's own index path, children
+   conform again (or none for a leaf type) *)
+Theorem C20_every_node : forall (Df : sdef) ptype path f q u,
+  Conf Df ptype path f -> NodeAt ptype f q u ->
+  exists path' cs e i,
+    lookup q (d_rels Df) = Some cs /\ In e cs /\ (1 <= i)%nat /\
+    g_type u = fst e /\
+    attrs_ok i (path' ++ [i]) (strip (mspec Df e)) (g_attrs u) /\
+    (mem (fst e) (d_rels Df) = true -> Conf Df (fst e) (path' ++ [i]) (g_ch u)) /\
+    (mem (fst e) (d_rels Df) = false -> g_ch u = []).
+Proof.
+  intros Df ptype path f q u HC HN.
+  destruct (every_node Df ptype path f q u HC HN) as [path' [cs [e [i H]]]].
+  exists path', cs, e, i. exact H.
+Qed.
+Print Assumptions C20_every_node.
+
+(* per relation (the relation dict has distinct keys): the children of type ct are
+   exactly that relation's group; their number obeys :count; the k-th of them carries
+   the macro index k+1 = its 1-based position among the siblings of its type (the
+   kind-aware sibling index of C15) and the index path path ++ [k+1] *)
+Theorem C20_relation_group : forall (Df : sdef) ptype path f cs e,
+  Conf Df ptype path f -> lookup ptype (d_rels Df) = Some cs -> NoDup (map fst cs) -> In e cs ->
+  let g := filter (of_type (fst e)) f in
+  count_ok (lookup K_count (mspec Df e)) (length g) /\
+  forall k t, nth_error g k = Some t ->
+    g_type t = fst e /\
+    attrs_ok (S k) (path ++ [S k]) (strip (mspec Df e)) (g_attrs t) /\
+    (mem (fst e) (d_rels Df) = true -> Conf Df (fst e) (path ++ [S k]) (g_ch t)) /\
+    (mem (fst e) (d_rels Df) = false -> g_ch t = []).
+Proof. exact relation_group. Qed.
+Print Assumptions C20_relation_group.
+
+(* child count: fixed, default 1, RangeRandomizer with probability 1.0 / any probability *)
+Theorem C20_child_count :
+  (forall n, count_ok None n <-> n = 1%nat) /\
+  (forall v n, count_ok (Some (SV v)) n <-> n = count_of v) /\
+  (forall lo hi p none n, (p == 1)%Q -> 0 <= lo ->
+     count_ok (Some (SR (RRangeI lo hi p none))) n -> lo <= Z.of_nat n < hi) /\
+  (forall lo hi p none n, 0 <= lo ->
+     count_ok (Some (SR (RRangeI lo hi p none))) n -> lo <= Z.of_nat n < hi \/ n = count_of none).
+Proof.
+  refine (conj _ (conj _ (conj count_ok_range count_ok_range_any))); intros; cbn [count_ok]; tauto.
+Qed.
+Print Assumptions C20_child_count.
+
+(* attributes, key by key (the merged spec is a dict: distinct keys) *)
+Theorem C20_attributes : forall i path m a, attrs_ok i path m a -> NoDup (map fst m) -> forall k,
+  match lookup k m with
+  | None => lookup k a = None
+  | Some (SV v0) => lookup k a = Some (expand i (dotted path) v0)
+  | Some (SR r) =>
+      match lookup k a with
+      | Some v => exists raw, rnd_may r raw /\ raw <> VNone /\ v = expand i (dotted path) raw
+      | None => rnd_may r VNone
+      end
+  end.
+Proof. exact attrs_ok_lookup. Qed.
+Print Assumptions C20_attributes.
+
+(* the merged spec: relation spec over type defaults over "*" defaults; ":count",
+   ":callback", ":factory" never reach the node; distinct keys are preserved *)
+Theorem C20_merge : forall k nt sp types,
+  lookup k (merge_specs nt sp types) =
+    match lookup k (rev sp) with
+    | Some v => Some v
+    | None => match lookup k (rev (getd nt types)) with
+              | Some v => Some v
+              | None => lookup k (getd K_star types)
+              end
+    end /\
+  lookup k (strip (merge_specs nt sp types)) =
+    (if special k then None else lookup k (merge_specs nt sp types)) /\
+  (NoDup (map fst sp) -> lookup k (rev sp) = lookup k sp) /\
+  (NoDup (map fst (getd K_star types)) -> NoDup (map fst (strip (merge_specs nt sp types)))).
+Proof.
+  intros k nt sp types. refine (conj (merge_lookup k nt sp types) (conj (lookup_strip k _) (conj _ _))).
+  - apply lookup_rev_nodup.
+  - intros H. apply nodup_keys_strip. apply nodup_keys_merge. exact H.
+Qed.
+Print Assumptions C20_merge.
+
+(* macros: {idx} -> decimal i, {hier_idx} -> the dotted index path; the prefix string
+   threaded by the code is that path; [dec] is decimal notation (decoding law) *)
+Theorem C20_macros :
+  (forall path i, hier (dotted path) i = dotted (path ++ [i])) /\
+  (forall n, undec (dec n) = Z.of_nat n /\ Forall (fun d => 48 <= d <= 57) (dec n) /\ dec n <> []) /\
+  (forall t i p, expand i p (VStr t) = VStr [Lit (render t i p)]) /\
+  (forall i p, render [Lit [84; 32]; Idx; Lit [47]; HierIdx] i p = [84; 32] ++ dec i ++ [47] ++ p).
+Proof.
+  refine (conj hier_dotted (conj (fun n => conj (dec_undec n) (conj (dec_digits n) (dec_nonempty n))) (conj _ _))).
+  - reflexivity.
+  - intros i p. cbn [render flat_map]. rewrite app_nil_r. reflexivity.
+Qed.
+Print Assumptions C20_macros.
+
+(* probability, stream-aware: u = random() >= probability (< 1.0) -> the none value and
+   exactly one draw consumed; probability 0.0 -> always; probability 1.0 -> never, no draw *)
+Theorem C20_probability : forall r s,
+  (~ (prob_of r == 1)%Q -> (prob_of r <= rand01 (fst (next s)))%Q -> gen r s = (none_of r, snd (next s))) /\
+  ((prob_of r == 0)%Q -> gen r s = (none_of r, snd (next s))) /\
+  ((prob_of r == 1)%Q -> skip_value (prob_of r) s = (false, s) /\ (rnd_wf r -> in_range r (fst (gen r s)))) /\
+  ((rand01 (fst (next s)) < prob_of r)%Q -> fst (skip_value (prob_of r) s) = false).
+Proof.
+  intros r s. refine (conj (gen_skipped r s) (conj (gen_prob_zero r s) (conj _ _))).
+  - intros H1. split; [exact (skip_value_p1 _ s H1)|]. intros Hwf. exact (rnd_may_p1 r _ H1 (gen_may r s Hwf)).
+  - intros H. apply skip_value_used. right. exact H.
+Qed.
+Print Assumptions C20_probability.
+
+(* an attribute skipped by probability is absent, and the rest of the dict is resolved
+   as if the key were not there *)
+Theorem C20_skipped_absent : forall k r d i p s,
+  ~ (prob_of r == 1)%Q -> (prob_of r <= rand01 (fst (next s)))%Q -> none_of r = VNone ->
+  resolve_dict ((k, SR r) :: d) i p s = resolve_dict d i p (snd (next s)) /\
+  (~ In k (map fst d) -> lookup k (fst (resolve_dict ((k, SR r) :: d) i p s)) = None).
+Proof. exact resolve_dict_skipped. Qed.
+Print Assumptions C20_skipped_absent.
+
+(* D39 (recorded domain restriction): for the cyclic definition
+   {"__root__": {"a": {}}, "a": {"a": {}}} the tree is as high as the fuel, for every
+   fuel and stream (the code recurses without end), and no rank function exists *)
+Theorem C20_D39_cyclic_never_stabilises :
+  (forall fuel s, list_max (map g_height (fst (make_tree Dcyc fuel K_root [] s))) = fuel) /\
+  ~ (exists rk, rank_ok Dcyc rk).
+Proof. exact (conj cyclic_unbounded cyclic_no_rank). Qed.
+Print Assumptions C20_D39_cyclic_never_stabilises.
+
+(* the decidable domain checks evaluated by the correspondence on every case imply
+   the hypotheses of C20_conforms *)
+Theorem C20_domain_checks : forall Df fuel rk, in_domain Df fuel rk = true ->
+  let rkf := rk_of (map (fun p => (fst p, Z.to_nat (snd p))) rk) in
+  def_wf Df /\ rank_ok Df rkf /\ (rkf K_root < Z.to_nat fuel)%nat /\ mem K_root (d_rels Df) = true.
+Proof.
+  intros Df fuel rk H. unfold in_domain in H.
+  apply andb_true_iff in H. destruct H as [H H4]. apply andb_true_iff in H. destruct H as [H H3].
+  apply andb_true_iff in H. destruct H as [H1 H2].
+  refine (conj (def_wfb_ok _ H1) (conj (rank_okb_ok _ _ H2) (conj _ H4))). apply Nat.ltb_lt. exact H3.
+Qed.
+Print Assumptions C20_domain_checks.
+
+(* ------------------------------------------------------------------------ *)
+(* non-vacuity: the suite's own definition (test_simple) is inside the domain, and
+   a stream builds a tree with 3 levels on which the statements speak about
+   real nodes *)
+Definition t_ (s : list Z) : text := s.
+Definition FN := t_ [102;110]. Definition FAIL := t_ [102;97;105;108].
+Definition CAUSE := t_ [99;97;117;115;101]. Definition EFF := t_ [101;102;102].
+Definition TITLE := t_ [116;105;116;108;101]. Definition ICON := t_ [105;99;111;110].
+Definition Dex : sdef :=
+  SD (Some [102;109;101;97])
+     [ (K_star, [(K_factory, SV VNone)]); (FN, [(ICON, SV (VStr [Lit [103]]))]); (CAUSE, [(ICON, SV (VStr [Lit [116]]))]) ]
+     [ (K_root, [(FN, [(K_count, SV (VInt 3)); (TITLE, SV (VStr [Lit [70; 32]; HierIdx]));
+                        (t_ [100], SR (RDate 737425 365 true (mkQ 63 64)));
+                        (t_ [118], SR (RValue (VStr [Lit [102]]) (mkQ 1 2)));
+                        (t_ [115], SR (RSample [VStr [Lit [111]]; VStr [Lit [99]]] None (mkQ 1 1)))])]);
+       (FN, [(FAIL, [(K_count, SR (RRangeI 1 3 (mkQ 1 1) VNone)); (TITLE, SV (VStr [Lit [70; 32]; HierIdx]))])]);
+       (FAIL, [(CAUSE, [(K_count, SR (RRangeI 1 3 (mkQ 63 64) VNone)); (TITLE, SV (VStr [Lit [67; 32]; HierIdx]))]);
+               (EFF, [(K_count, SR (RRangeI 1 3 (mkQ 1 1) VNone)); (TITLE, SV (VStr [Idx; Lit [58]; HierIdx]))])]) ].
+Definition rkex := [(K_root, 3); (FN, 2); (FAIL, 1)].
+Definition sex : stream :=
+  map (fun n => D n 64 []) [7; 3; 100; 1; 0; 5; 9; 1; 2; 3; 1; 0; 1; 11; 1; 1; 0; 1; 70; 2; 65; 4; 8; 1; 1; 1; 0; 3; 2; 1; 1; 1].
+
+Definition title_is (s : text) (t : gt) : bool :=
+  match lookup TITLE (g_attrs t) with Some (VStr [Lit x]) => text_eqb x s | _ => false end.
+
+Example C20_nonvacuous :
+  (* the hypotheses of C20_conforms hold (C20_domain_checks) *)
+  in_domain Dex 4 rkex = true /\
+  let f := snd (build_random_tree Dex true 4 sex) in
+  length f = 3%nat /\ list_max (map g_height f) = 3%nat /\ list_sum (map g_size f) = 25%nat /\
+  (* a node at depth 3: the second "eff" below "fail" 2 below "fn" 2, titled "2:2.2.2"? no –
+     fail 2.2 has one effect only; "1:2.2.1" is there, and "2:2.1.2" below fail 2.1 *)
+  existsb (fun a => existsb (fun b => existsb (fun c => text_eqb (g_type c) EFF && title_is [50;58;50;46;49;46;50] c)
+                                              (g_ch b) && text_eqb (g_type b) FAIL) (g_ch a)) f = true /\
+  (* per-relation numbering: "cause" 1.1.2 and "eff" 1.1.2 are siblings *)
+  existsb (fun a => existsb (fun b => existsb (title_is [67;32;49;46;49;46;50]) (g_ch b) &&
+                                      existsb (title_is [50;58;49;46;49;46;50]) (g_ch b)) (g_ch a)) f = true /\
+  (* probability skips really happen on this stream: key "v" is absent from one "fn", present in another *)
+  existsb (fun a => match lookup [118] (g_attrs a) with None => true | _ => false end) f = true /\
+  existsb (fun a => match lookup [118] (g_attrs a) with Some _ => true | _ => false end) f = true.
+Proof. vm_compute. repeat split. Qed.
+
+(* NodeAt reaches nodes below the top level *)
+Example C20_nodeat_nonvacuous :
+  let c := G EFF [] [] in let b := G FAIL [] [c] in let a := G FN [] [b] in
+  NodeAt K_root [a] FAIL c.
+Proof.
+  cbv zeta. eapply NA_below; [left; reflexivity|]. eapply NA_below; [left; reflexivity|].
+  apply NA_here. left. reflexivity.
+Qed.
